@@ -66,8 +66,7 @@ def gen_match_workload(rng):
     for d in docs:
         for feat in gen.markup_features(d['markup']):
             if rng.random() < 0.5:
-                keys.append({'pattern': rng.choice(gen.FEATURE_POOLS[feat]), 'ns': None, 'custom': None, 'flags': 0,
-                             'uses_scope': False, 'special': 0})
+                keys.append(gen.feature_key(rng, feat))
     while len(keys) < 2 or (len(keys) < 5 and rng.random() < 0.5):
         r = rng.random()
         if r < 0.5:
@@ -126,6 +125,14 @@ def gen_workload(rng, mode):
         for _ in range(rng.randint(2, 4)):
             keys.append({'pattern': rng.choice(PURGE_POOL), 'ns': None, 'custom': None, 'flags': 0,
                          'uses_scope': False, 'special': 0})
+    deep = None
+    if rng.random() < 0.05:
+        # a very deeply nested (far beyond the default recursion limit) pattern: whatever the library does about stack
+        # depth for one caller must not reach into another caller's compile
+        d = rng.choice([450, 600])
+        keys.append({'pattern': ':is(' * d + 'p' + ')' * d, 'ns': None, 'custom': None, 'flags': 0, 'uses_scope': False,
+                     'special': 0})
+        deep = len(keys) - 1
     docs = []
     if not dense:
         for _ in range(rng.choice([1, 1, 2])):
@@ -152,6 +159,9 @@ def gen_workload(rng, mode):
         programs.append(prog)
     if mode == 'purge' and not any(o['op'] == 'purge' for p in programs for o in p):
         programs[rng.randrange(nthreads)].append({'op': 'purge'})
+    if deep is not None:
+        t = rng.randrange(1, nthreads) if nthreads > 1 else 0
+        programs[t].insert(rng.randrange(len(programs[t]) + 1), {'op': 'compile', 'key': deep})
     return {'mode': mode, 'keys': keys, 'docs': docs, 'programs': programs,
             'lower_pressure': rng.choice([0, 0, 0, 505, 511, 512, 600]),
             # bytecode-granularity scheduling (sched.Sim(opcodes=True)) is implemented but switched off: per-opcode
@@ -1064,8 +1074,13 @@ def evidence(agg, info, plan_, tier):
         'cache_bounds_used': {k[6:]: v for k, v in c.items() if k.startswith('bound:')},
         'thread_counts': {k[8:]: v for k, v in c.items() if k.startswith('threads:')},
         'granularity': {k[12:]: v for k, v in c.items() if k.startswith('granularity:')},
-        'faults_fired': {'purge-by-peer': c.get('mode:purge', 0), 'small-cache(bound<500)': sum(
-            v for k, v in c.items() if k.startswith('bound:') and k != 'bound:500')},
+        'faults_fired': {'purge-by-peer(runs of the purge-dense mode)': c.get('mode:purge', 0),
+                         'small-cache(runs with bound<500)': sum(
+                             v for k, v in c.items() if k.startswith('bound:') and k != 'bound:500'),
+                         'whole-peer-operation-injected-at-a-step-of-a-compile/select(sweep)': probes.get('sweep_injection_points', 0),
+                         'whole-peer-query-injected-at-a-code-site-of-a-query/failing-compile(msweep)':
+                             probes.get('msweep_injection_points', 0),
+                         'pre-emptions(all policies)': c.get('preempts', 0)},
         'probes': probes,
         'runs_reaching_probe': runs_with,
         'preemption_sites_used': len(agg.sets.get('sites', ())),
